@@ -49,7 +49,7 @@ def scratch():
     global _scratch
     if _scratch is None:
         base = os.environ.get("VERIF_SCRATCH") or tempfile.gettempdir()
-        _scratch = tempfile.mkdtemp(prefix="verif-run-", dir=base)
+        _scratch = tempfile.mkdtemp(prefix="vfscratch-%d-" % os.getpid(), dir=base)
     return _scratch
 
 
